@@ -1,9 +1,483 @@
-(* C10: lemmas about the HDF5 writer / reader model. *)
+(* C10: proofs about the HDF5 writer / reader model (model/Hdf5.v). *)
 From DF Require Import Prelude Region Mesh Hdf5.
 Open Scope Q_scope.
 
+(* ---------- integers that binary64 holds ---------- *)
 Lemma round_f64_small (z : Z) : (Z.abs z < 2 ^ 53)%Z -> round_f64 z = z.
 Proof.
   intro H. unfold round_f64.
   destruct (Z.ltb_spec (Z.abs z) (2 ^ 53)%Z) as [_ | H']; [reflexivity | lia].
+Qed.
+
+Lemma round_f64_exact (z : Z) : (Z.abs z <= 2 ^ 53)%Z -> round_f64 z = z.
+Proof.
+  intro H. destruct (Z.eq_dec (Z.abs z) (2 ^ 53)%Z) as [E | NE].
+  - destruct (Z.abs_eq_or_opp z) as [A | A]; rewrite A in E.
+    + subst z. vm_compute. reflexivity.
+    + assert (z = (- 2 ^ 53)%Z) by lia. subst z. vm_compute. reflexivity.
+  - apply round_f64_small. lia.
+Qed.
+
+(* ---------- corner ordering ---------- *)
+Lemma Qmin_lt (a b : Q) : a < b -> Qmin a b = a.
+Proof. intro H. unfold Qmin, GenericMinMax.gmin. apply Qlt_alt in H. rewrite H. reflexivity. Qed.
+
+Lemma Qmax_lt (a b : Q) : a < b -> Qmax a b = b.
+Proof. intro H. unfold Qmax, GenericMinMax.gmax. apply Qlt_alt in H. rewrite H. reflexivity. Qed.
+
+Lemma map2_min_lt (lo hi : list Q) : Forall2 (fun a b => a < b) lo hi -> map2 Qmin lo hi = lo.
+Proof. induction 1; simpl; [reflexivity|]. rewrite Qmin_lt by assumption. congruence. Qed.
+
+Lemma map2_max_lt (lo hi : list Q) : Forall2 (fun a b => a < b) lo hi -> map2 Qmax lo hi = hi.
+Proof. induction 1; simpl; [reflexivity|]. rewrite Qmax_lt by assumption. congruence. Qed.
+
+Lemma forallb2_ltb (lo hi : list Q) : Forall2 (fun a b => a < b) lo hi -> forallb2 Qltb lo hi = true.
+Proof.
+  induction 1; simpl; [reflexivity|]. rewrite IHForall2, andb_true_r.
+  unfold Qltb. apply negb_true_iff. destruct (Qle_bool y x) eqn:E; [|reflexivity].
+  apply Qle_bool_iff in E. exfalso. apply (Qlt_not_le _ _ H). exact E.
+Qed.
+
+Lemma edges_nonzero (lo hi : list Q) :
+  Forall2 (fun a b => a < b) lo hi -> existsb (fun e => Qeq_bool e 0) (edges_of lo hi) = false.
+Proof.
+  unfold edges_of. induction 1; simpl; [reflexivity|]. rewrite IHForall2, orb_false_r.
+  destruct (Qeq_bool (y - x) 0) eqn:E; [|reflexivity].
+  apply Qeq_bool_iff in E. exfalso. lra.
+Qed.
+
+Lemma Forall2_length' {A B} (P : A -> B -> Prop) l1 l2 : Forall2 P l1 l2 -> length l1 = length l2.
+Proof. induction 1; simpl; congruence. Qed.
+
+(* Region(p1 = lo, p2 = hi, dims, units, tolerance_factor) on ordered corners *)
+Lemma mk_region_ordered (lo hi : list Q) (ds us : option (list string)) (t : Q) :
+  Forall2 (fun a b => a < b) lo hi -> (0 < length lo)%nat ->
+  match ds with Some d => length d = length lo /\ nodupb d = true | None => True end ->
+  match us with Some u => length u = length lo | None => True end ->
+  mk_region lo hi ds us t =
+  OK (mkRegion lo hi (match ds with Some d => d | None => default_dims (length lo) end)
+               (match us with Some u => u | None => repeat "m"%string (length lo) end) t).
+Proof.
+  intros Hlt Hpos Hd Hu. unfold mk_region.
+  rewrite <- (Forall2_length' Hlt), Nat.eqb_refl. simpl negb. cbv iota.
+  destruct (length lo =? 0)%nat eqn:E0; [apply Nat.eqb_eq in E0; lia|].
+  rewrite (map2_min_lt Hlt), (map2_max_lt Hlt).
+  destruct ds as [d|].
+  - destruct Hd as [Hd1 Hd2]. rewrite Hd1, Nat.eqb_refl, Hd2. simpl.
+    destruct us as [u|]; simpl.
+    + rewrite Hu, Nat.eqb_refl. simpl. rewrite (edges_nonzero Hlt). reflexivity.
+    + rewrite (edges_nonzero Hlt). reflexivity.
+  - simpl. destruct us as [u|]; simpl.
+    + rewrite Hu, Nat.eqb_refl. simpl. rewrite (edges_nonzero Hlt). reflexivity.
+    + rewrite (edges_nonzero Hlt). reflexivity.
+Qed.
+
+(* Region(pmin = lo, pmax = hi, …): the strict-order test passes on ordered corners *)
+Lemma mk_region_minmax_ordered (lo hi : list Q) (ds us : option (list string)) (t : Q) :
+  Forall2 (fun a b => a < b) lo hi -> (0 < length lo)%nat ->
+  match ds with Some d => length d = length lo /\ nodupb d = true | None => True end ->
+  match us with Some u => length u = length lo | None => True end ->
+  mk_region_minmax lo hi ds us t =
+  OK (mkRegion lo hi (match ds with Some d => d | None => default_dims (length lo) end)
+               (match us with Some u => u | None => repeat "m"%string (length lo) end) t).
+Proof.
+  intros Hlt Hpos Hd Hu. unfold mk_region_minmax.
+  rewrite (forallb2_ltb Hlt). simpl. apply mk_region_ordered; assumption.
+Qed.
+
+(* … and rejects corners that are not strictly ordered (same length) *)
+Lemma mk_region_minmax_unordered (lo hi : list Q) ds us t :
+  length lo = length hi -> forallb2 Qltb lo hi = false -> mk_region_minmax lo hi ds us t = Err ValueE.
+Proof.
+  intros HL HF. unfold mk_region_minmax. rewrite HF, HL, Nat.eqb_refl. reflexivity.
+Qed.
+
+(* ---------- the subregion table ---------- *)
+Lemma truncQ_inject (z : Z) : truncQ (inject_Z z) = z.
+Proof.
+  unfold truncQ, inject_Z, Qle_bool, Qceiling, Qfloor, Qopp. simpl.
+  destruct (0 * 1 <=? z * 1)%Z; rewrite ?Z.div_1_r; lia.
+Qed.
+
+Lemma cast_integral (k : ckind) (x : Q) : integral x -> cast k x = x.
+Proof. intros [z ->]. destruct k; simpl; [rewrite truncQ_inject|]; reflexivity. Qed.
+
+Lemma cast_float (x : Q) : cast KFloat x = x.
+Proof. reflexivity. Qed.
+
+Lemma table_kind_int (ck : ckind) (sk : list ckind) :
+  table_kind ck sk = KInt -> ck = KInt /\ Forall (fun k => k = KInt) sk.
+Proof.
+  unfold table_kind. induction sk as [|k sk IH]; simpl; intro H.
+  - split; [assumption | constructor].
+  - destruct k; simpl in H.
+    + destruct (fold_right kjoin ck sk) eqn:E; [|discriminate].
+      destruct (IH eq_refl) as [A B]. split; [assumption | constructor; auto].
+    + discriminate.
+Qed.
+
+Lemma table_kind_member (ck : ckind) (sk : list ckind) (k : ckind) :
+  In k sk -> table_kind ck sk = KInt -> k = KInt.
+Proof.
+  intros Hin H. destruct (table_kind_int ck sk H) as [_ F].
+  rewrite Forall_forall in F. auto.
+Qed.
+
+(* the table's dtype holds every corner written into it: nothing is truncated *)
+Lemma cast_corners (tk k : ckind) (lo hi : list Q) :
+  wf_corners k lo hi -> (tk = KInt -> k = KInt) -> map (cast tk) (lo ++ hi) = lo ++ hi.
+Proof.
+  intros (_ & _ & Hint) Himp. destruct tk; [|apply map_id].
+  destruct (Hint (Himp eq_refl)) as [A B].
+  rewrite <- (map_id (lo ++ hi)) at 2. apply map_ext_in. intros x Hx.
+  apply cast_integral. apply in_app_or in Hx. rewrite Forall_forall in A, B. destruct Hx; auto.
+Qed.
+
+Lemma firstn_app_exact {A} (l1 l2 : list A) : firstn (length l1) (l1 ++ l2) = l1.
+Proof. rewrite firstn_app, Nat.sub_diag, firstn_all. simpl. apply app_nil_r. Qed.
+
+Lemma skipn_app_exact {A} (l1 l2 : list A) : skipn (length l1) (l1 ++ l2) = l2.
+Proof. rewrite skipn_app, Nat.sub_diag, skipn_all. reflexivity. Qed.
+
+Lemma load_sub_row (r : region) (tk k : ckind) (s : string * region) :
+  (0 < length (pmin r))%nat -> wf_sub r k s -> (tk = KInt -> k = KInt) ->
+  load_sub r (sub_row tk s) = OK (snd s).
+Proof.
+  intros Hpos (Hlen & Hc & Hd & Hu & Ht) Himp. unfold load_sub, sub_row.
+  rewrite (cast_corners Hc Himp). unfold ndim. rewrite <- Hlen.
+  rewrite firstn_app_exact, skipn_app_exact.
+  destruct Hc as (Hl & Hlt & _).
+  rewrite (mk_region_ordered None None default_tf Hlt); [| lia | exact I | exact I].
+  simpl. unfold adopt. simpl. rewrite <- Hd, <- Hu, <- Ht. destruct s as [nm [a b c d e]]. reflexivity.
+Qed.
+
+Lemma load_rows (r : region) (tk : ckind) (sk : list ckind) (ss : list (string * region)) :
+  (0 < length (pmin r))%nat -> Forall2 (wf_sub r) sk ss -> (tk = KInt -> Forall (fun k => k = KInt) sk) ->
+  mapM (load_sub r) (map (sub_row tk) ss) = OK (map snd ss).
+Proof.
+  intros Hpos H. induction H as [|k s sk ss Hw _ IH]; intro Himp; simpl; [reflexivity|].
+  rewrite (@load_sub_row r tk k s Hpos Hw).
+  - simpl. rewrite IH; [reflexivity|]. intro E. specialize (Himp E). inversion Himp; assumption.
+  - intro E. specialize (Himp E). inversion Himp; assumption.
+Qed.
+
+Lemma combine_fst_snd {A B} (l : list (A * B)) : combine (map fst l) (map snd l) = l.
+Proof. induction l as [|[a b] l IH]; simpl; congruence. Qed.
+
+(* ---------- small facts about the constructors ---------- *)
+Lemma zlist_eqb_refl (l : list Z) : zlist_eqb l l = true.
+Proof. unfold zlist_eqb. induction l; simpl; [reflexivity|]. rewrite Z.eqb_refl. assumption. Qed.
+
+Lemma forallb_pos (l : list Z) : Forall (fun k => 0 < k)%Z l -> forallb (fun k => (0 <? k)%Z) l = true.
+Proof. induction 1; simpl; [reflexivity|]. rewrite IHForall, andb_true_r. apply Z.ltb_lt. assumption. Qed.
+
+Lemma mk_mesh_n_ok (r : region) (ns : list Z) :
+  length ns = length (pmin r) -> Forall (fun k => 0 < k)%Z ns -> mk_mesh_n r ns = OK (mkMesh r ns "" []).
+Proof.
+  intros HL HP. unfold mk_mesh_n, ndim. rewrite HL, Nat.eqb_refl, (forallb_pos HP). reflexivity.
+Qed.
+
+Lemma set_vdims_wf (nv : Z) (vd : option (list string)) :
+  match vd with
+  | None => nv = 1%Z
+  | Some l => l <> [] /\ Z.of_nat (length l) = nv /\ nodupb l = true
+  end -> set_vdims nv vd = OK vd.
+Proof.
+  destruct vd as [l|]; simpl.
+  - intros (Hne & Hl & Hd). destruct l as [|a l]; [congruence|].
+    rewrite Hl, Z.eqb_refl, Hd. reflexivity.
+  - intros ->. reflexivity.
+Qed.
+
+(* ---------- the round trip ---------- *)
+Section Roundtrip.
+  Context {V : Type} (conv : V -> V).
+
+  Theorem roundtrip (f : fstate V) :
+    wf_field f -> f_unit f <> Some none_marker ->
+    decode conv (NewFile (encode f)) = OK (canon conv f).
+  Proof.
+    intros (Hc & Hpos & Hdl & Hdd & Hul & Hnl & Hnp & Hsubs & Hnv & Hvd) Hunit.
+    destruct f as [ck m sk nv vd un dk vals valid]. simpl in *.
+    destruct m as [r ns b ss]. simpl in *.
+    destruct r as [lo hi ds us t]. simpl in *.
+    destruct Hc as (Hl & Hlt & Hint).
+    unfold decode, decode_new, encode. simpl.
+    (* vdims / unit attributes *)
+    assert (Hvattr :
+      match (match vd with None => AStr none_marker | Some l => AStrs l end) with
+      | AStr s => if String.eqb s none_marker then OK None else Err TypeE
+      | AStrs l => OK (Some l)
+      end = OK vd) by (destruct vd; reflexivity).
+    rewrite Hvattr. simpl.
+    assert (Huattr :
+      (if String.eqb (match un with None => none_marker | Some u => u end) none_marker
+       then None else Some (match un with None => none_marker | Some u => u end)) = un).
+    { destruct un as [u|]; [|reflexivity].
+      destruct (String.eqb u none_marker) eqn:E; [|reflexivity].
+      apply String.eqb_eq in E. subst u. congruence. }
+    rewrite Huattr.
+    (* region *)
+    unfold load_region. simpl.
+    rewrite (mk_region_minmax_ordered (Some ds) (Some us) t Hlt Hpos (conj Hdl Hdd) Hul). simpl.
+    set (r := mkRegion lo hi ds us t).
+    set (tk := table_kind ck sk).
+    (* subregions *)
+    assert (Hsb : load_subs r (match ss with
+                               | [] => None
+                               | _ => Some (map fst ss, (tk, map (sub_row tk) ss))
+                               end) = OK (ss, repeat tk (length ss))).
+    { destruct ss as [|s0 ss0]; [reflexivity|].
+      unfold load_subs.
+      rewrite (@load_rows r tk sk (s0 :: ss0) Hpos Hsubs).
+      - simpl bind. rewrite combine_fst_snd. reflexivity.
+      - intro E. apply (table_kind_int ck sk E). }
+    rewrite Hsb. simpl.
+    rewrite (mk_mesh_n_ok r ns Hnl Hnp). simpl.
+    (* field *)
+    unfold mk_field. simpl.
+    assert (H1 : (1 <=? nv)%Z = true) by (apply Z.leb_le; assumption).
+    rewrite H1. simpl. rewrite !zlist_eqb_refl. simpl.
+    rewrite (set_vdims_wf nv vd Hvd). simpl.
+    unfold canon. simpl. reflexivity.
+  Qed.
+
+  (* what [canon] keeps: everything the property lists *)
+  Lemma canon_keeps (f : fstate V) :
+    (f_dk f = DInt -> Forall (fun v => conv v = v) (f_vals f)) ->
+    let g := canon conv f in
+    f_ck g = f_ck f /\ f_mesh g = f_mesh f /\ f_nvdim g = f_nvdim f /\ f_vdims g = f_vdims f /\
+    f_unit g = f_unit f /\ f_vals g = f_vals f /\ f_valid g = f_valid f /\
+    is_complex (f_dk g) = is_complex (f_dk f) /\ (f_dk f <> DInt -> f_dk g = f_dk f).
+  Proof.
+    intro Hconv. simpl. repeat split; try reflexivity.
+    - unfold conv_vals. destruct (f_dk f) eqn:E; try reflexivity.
+      specialize (Hconv eq_refl). rewrite <- (map_id (f_vals f)) at 2.
+      apply map_ext_in. rewrite Forall_forall in Hconv. auto.
+    - destruct (f_dk f); reflexivity.
+    - destruct (f_dk f); congruence.
+  Qed.
+
+  Theorem roundtrip_state (f : fstate V) :
+    wf_field f -> f_unit f <> Some none_marker ->
+    (f_dk f = DInt -> Forall (fun v => conv v = v) (f_vals f)) ->
+    exists g, decode conv (NewFile (encode f)) = OK g /\
+      f_ck g = f_ck f /\ f_mesh g = f_mesh f /\ f_nvdim g = f_nvdim f /\ f_vdims g = f_vdims f /\
+      f_unit g = f_unit f /\ f_vals g = f_vals f /\ f_valid g = f_valid f /\
+      is_complex (f_dk g) = is_complex (f_dk f) /\ (f_dk f <> DInt -> f_dk g = f_dk f).
+  Proof.
+    intros Hwf Hu Hc. exists (canon conv f). split; [apply roundtrip; assumption|].
+    apply canon_keeps. assumption.
+  Qed.
+
+  (* the numbers in the written table are the subregion corners themselves *)
+  Theorem table_exact (f : fstate V) :
+    wf_field f -> subs (f_mesh f) <> [] ->
+    h_subs (encode f) =
+    Some (map fst (subs (f_mesh f)),
+          (table_kind (f_ck f) (f_subk f),
+           map (fun s => pmin (snd s) ++ pmax (snd s)) (subs (f_mesh f)))).
+  Proof.
+    intros (_ & _ & _ & _ & _ & _ & _ & Hsubs & _) Hne. unfold encode. simpl.
+    destruct (subs (f_mesh f)) as [|s0 ss0] eqn:E; [congruence|].
+    f_equal. f_equal. f_equal.
+    set (tk := table_kind (f_ck f) (f_subk f)).
+    assert (Himp : tk = KInt -> Forall (fun k => k = KInt) (f_subk f))
+      by (intro E'; apply (table_kind_int _ _ E')).
+    clear E Hne. revert Himp. generalize (s0 :: ss0) as ss, tk. intros ss tk0 Himp.
+    induction Hsubs as [|k s sk ss' Hw _ IH]; simpl; [reflexivity|].
+    f_equal.
+    - unfold sub_row. destruct Hw as (_ & Hc & _). apply (cast_corners Hc).
+      intro E'. specialize (Himp E'). inversion Himp; assumption.
+    - apply IH. intro E'. specialize (Himp E'). inversion Himp; assumption.
+  Qed.
+End Roundtrip.
+
+(* ---------- legacy layout ---------- *)
+Lemma Qmin_max_distinct (a b : Q) : ~ a == b -> Qmin a b < Qmax a b.
+Proof.
+  intro H. unfold Qmin, Qmax, GenericMinMax.gmin, GenericMinMax.gmax.
+  destruct (a ?= b) eqn:E.
+  - apply Qeq_alt in E. contradiction.
+  - apply Qlt_alt in E. assumption.
+  - apply Qgt_alt in E. assumption.
+Qed.
+
+Lemma minmax_ordered (p1 p2 : list Q) :
+  Forall2 (fun a b => ~ a == b) p1 p2 -> Forall2 (fun a b => a < b) (map2 Qmin p1 p2) (map2 Qmax p1 p2).
+Proof. induction 1; simpl; constructor; auto using Qmin_max_distinct. Qed.
+
+Lemma Qmin_idem_lt (a b : Q) : a < b -> Qmin (Qmin a b) (Qmax a b) = Qmin a b /\ Qmax (Qmin a b) (Qmax a b) = Qmax a b.
+Proof. intro H. rewrite (Qmin_lt H), (Qmax_lt H), (Qmin_lt H), (Qmax_lt H). split; reflexivity. Qed.
+
+Lemma map2_length_eq {A B C} (g : A -> B -> C) l1 l2 : length l1 = length l2 -> length (map2 g l1 l2) = length l1.
+Proof. revert l2. induction l1; destruct l2; simpl; intros; try discriminate; auto. Qed.
+
+Lemma edges_nonzero_minmax (p1 p2 : list Q) :
+  Forall2 (fun a b => ~ a == b) p1 p2 ->
+  existsb (fun e => Qeq_bool e 0) (edges_of (map2 Qmin p1 p2) (map2 Qmax p1 p2)) = false.
+Proof. intro H. apply edges_nonzero. apply minmax_ordered. assumption. Qed.
+
+(* Region(p1, p2) with the corners in any order *)
+Lemma mk_region_any_order (p1 p2 : list Q) (t : Q) :
+  Forall2 (fun a b => ~ a == b) p1 p2 -> (0 < length p1)%nat ->
+  mk_region p1 p2 None None t =
+  OK (mkRegion (map2 Qmin p1 p2) (map2 Qmax p1 p2) (default_dims (length p1))
+               (repeat "m"%string (length p1)) t).
+Proof.
+  intros H Hpos. unfold mk_region.
+  rewrite <- (Forall2_length' H), Nat.eqb_refl. simpl negb. cbv iota.
+  destruct (length p1 =? 0)%nat eqn:E0; [apply Nat.eqb_eq in E0; lia|].
+  simpl. rewrite (edges_nonzero_minmax H). reflexivity.
+Qed.
+
+Definition wf_side (nd : nat) (s : side_region) : Prop :=
+  Forall2 (fun a b => a < b) (sd_pmin s) (sd_pmax s) /\ length (sd_pmin s) = nd /\
+  length (sd_dims s) = nd /\ nodupb (sd_dims s) = true /\ length (sd_units s) = nd.
+
+Lemma load_side_ok (r : region) (s : side_region) :
+  (0 < length (pmin r))%nat -> wf_side (length (pmin r)) s ->
+  load_side r s = OK (sd_name s, mkRegion (sd_pmin s) (sd_pmax s) (dims r) (units r) (tf r)).
+Proof.
+  intros Hpos (Hlt & Hl & Hd & Hdd & Hu). unfold load_side.
+  rewrite (mk_region_minmax_ordered (Some (sd_dims s)) (Some (sd_units s)) (sd_tf s) Hlt);
+    [reflexivity | lia | split; [congruence | assumption] | congruence].
+Qed.
+
+Lemma load_sides_ok (r : region) (items : list side_region) :
+  (0 < length (pmin r))%nat -> Forall (wf_side (length (pmin r))) items ->
+  mapM (load_side r) items =
+  OK (map (fun s => (sd_name s, mkRegion (sd_pmin s) (sd_pmax s) (dims r) (units r) (tf r))) items).
+Proof.
+  intros Hpos H. induction H as [|s items Hs _ IH]; simpl; [reflexivity|].
+  rewrite (load_side_ok r s Hpos Hs). simpl. rewrite IH. reflexivity.
+Qed.
+
+Definition legacy_region (l_p1 l_p2 : list Q) : region :=
+  mkRegion (map2 Qmin l_p1 l_p2) (map2 Qmax l_p1 l_p2) (default_dims (length l_p1))
+           (repeat "m"%string (length l_p1)) default_tf.
+
+Definition legacy_subs (r : region) (side : option (list side_region)) : list (string * region) :=
+  match side with
+  | None => []
+  | Some items => map (fun s => (sd_name s, mkRegion (sd_pmin s) (sd_pmax s) (dims r) (units r) (tf r))) items
+  end.
+
+Theorem legacy_read {V} (conv : V -> V) (l : h5legacy V) :
+  Forall2 (fun a b => ~ a == b) (l_p1 l) (l_p2 l) -> (0 < length (l_p1 l))%nat ->
+  length (l_n l) = length (l_p1 l) -> Forall (fun k => 0 < k)%Z (l_n l) ->
+  (1 <= l_dim l)%Z -> l_shape l = l_n l ++ [l_dim l] ->
+  match l_side l with None => True | Some items => Forall (wf_side (length (l_p1 l))) items end ->
+  let r := legacy_region (l_p1 l) (l_p2 l) in
+  decode conv (LegacyFile l) =
+  OK (mkF (kjoin (l_ck1 l) (l_ck2 l))
+          (mkMesh r (l_n l) "" (legacy_subs r (l_side l)))
+          (match l_side l with None => [] | Some items => map sd_ck items end)
+          (l_dim l) (default_vdims (l_dim l)) None (conv_dk (l_dk l))
+          (conv_vals conv (l_dk l) (l_arr l))
+          (repeat true (Z.to_nat (zprod (l_n l))))).
+Proof.
+  intros Hne Hpos Hnl Hnp Hdim Hshape Hside r.
+  unfold decode, decode_legacy.
+  rewrite (mk_region_any_order default_tf Hne Hpos). fold r. simpl bind.
+  assert (Hrl : length (pmin r) = length (l_p1 l)).
+  { unfold r, legacy_region. simpl. apply map2_length_eq. apply (Forall2_length' Hne). }
+  rewrite (mk_mesh_n_ok r (l_n l)) by (rewrite Hrl; assumption). simpl bind.
+  assert (Hss : match l_side l with None => OK [] | Some items => mapM (load_side r) items end
+                = OK (legacy_subs r (l_side l))).
+  { destruct (l_side l) as [items|]; [|reflexivity].
+    simpl. apply load_sides_ok; rewrite Hrl; assumption. }
+  rewrite Hss. simpl bind.
+  unfold mk_field. simpl.
+  assert (H1 : (1 <=? l_dim l)%Z = true) by (apply Z.leb_le; assumption).
+  rewrite H1, Hshape, !zlist_eqb_refl. simpl. reflexivity.
+Qed.
+
+(* ---------- the limits of the format, as witnesses on the model ---------- *)
+Definition unit_mesh : mesh := mkMesh (mkRegion [0] [1] ["x"%string] ["m"%string] default_tf) [1%Z] "" [].
+
+(* (a) a unit whose text is the marker itself *)
+Definition w_marker : fstate Z :=
+  mkF KInt unit_mesh [] 1%Z None (Some none_marker) DFloat [0%Z] [true].
+
+(* (b) an integer payload beyond 2^53 *)
+Definition w_bigint : fstate Z :=
+  mkF KInt unit_mesh [] 1%Z None None DInt [(2 ^ 53 + 1)%Z] [true].
+
+(* (c) a vector field without labels *)
+Definition w_nolabels : fstate Z :=
+  mkF KInt unit_mesh [] 3%Z None None DFloat [0%Z; 0%Z; 0%Z] [true].
+
+Lemma unit_mesh_wf_parts :
+  wf_corners KInt [0] [1] /\ Forall2 (wf_sub (reg unit_mesh)) [] (subs unit_mesh).
+Proof.
+  split; [|constructor]. split; [reflexivity|]. split.
+  - constructor; [reflexivity | constructor].
+  - intros _. split; constructor; try constructor; [exists 0%Z | exists 1%Z]; reflexivity.
+Qed.
+
+Lemma w_marker_wf : wf_field w_marker.
+Proof.
+  destruct unit_mesh_wf_parts as [A B]. unfold wf_field. simpl.
+  repeat split; auto; try lia; try (constructor; [lia | constructor]); try apply A.
+Qed.
+
+Lemma w_bigint_wf : wf_field w_bigint.
+Proof.
+  destruct unit_mesh_wf_parts as [A B]. unfold wf_field. simpl.
+  repeat split; auto; try lia; try (constructor; [lia | constructor]); try apply A.
+Qed.
+
+Lemma marker_refuted :
+  exists f : fstate Z, wf_field f /\
+    exists g, decode round_f64 (NewFile (encode f)) = OK g /\ f_unit g <> f_unit f.
+Proof.
+  exists w_marker. split; [apply w_marker_wf|].
+  eexists. split; [vm_compute; reflexivity|]. simpl. discriminate.
+Qed.
+
+Lemma bigint_refuted :
+  exists f : fstate Z, wf_field f /\ f_unit f <> Some none_marker /\
+    exists g, decode round_f64 (NewFile (encode f)) = OK g /\ f_vals g <> f_vals f.
+Proof.
+  exists w_bigint. split; [apply w_bigint_wf|]. split; [discriminate|].
+  eexists. split; [vm_compute; reflexivity|]. simpl. discriminate.
+Qed.
+
+Lemma nolabels_refuted :
+  exists f : fstate Z, f_vdims f = None /\ f_nvdim f = 3%Z /\
+    exists g, decode round_f64 (NewFile (encode f)) = OK g /\
+      f_vdims g = Some ["x"; "y"; "z"]%string.
+Proof.
+  exists w_nolabels. split; [reflexivity|]. split; [reflexivity|].
+  eexists. split; vm_compute; reflexivity.
+Qed.
+
+(* a table typed after the region corners alone (the layout before commit 04fe8f0c) would
+   truncate a fractional corner: the reason [table_kind] joins over all corners *)
+Lemma region_typed_table_truncates : cast KInt (1 # 2) == 0 /\ ~ cast KInt (1 # 2) == (1 # 2).
+Proof. split; vm_compute; [reflexivity | discriminate]. Qed.
+
+(* non-vacuity: a well-formed field with an integer-typed region, one integer-cornered and one
+   fractional subregion, labels, a unit, complex data *)
+Definition w_rich : fstate Z :=
+  let r := mkRegion [0; 0] [2; 1] ["a"; "b"]%string ["nm"; "m"]%string (1 # 1000) in
+  mkF KInt
+      (mkMesh r [4%Z; 1%Z] "a"
+         [("s1"%string, mkRegion [0; 0] [1; 1] ["a"; "b"]%string ["nm"; "m"]%string (1 # 1000));
+          ("s2"%string, mkRegion [1 # 2; 0] [3 # 2; 1] ["a"; "b"]%string ["nm"; "m"]%string (1 # 1000))])
+      [KInt; KFloat] 2%Z (Some ["p"; "q"]%string) (Some "T"%string) DComplex
+      [1; 2; 3; 4; 5; 6; 7; 8]%Z [true; false; true; true].
+
+Lemma w_rich_wf : wf_field w_rich.
+Proof.
+  unfold wf_field, w_rich. simpl.
+  assert (I0 : integral 0) by (exists 0%Z; reflexivity).
+  assert (I1 : integral 1) by (exists 1%Z; reflexivity).
+  assert (I2 : integral 2) by (exists 2%Z; reflexivity).
+  repeat split; simpl; auto; try lia; try discriminate;
+    repeat (constructor; try reflexivity; try lia; auto);
+    unfold wf_sub, wf_corners; simpl;
+    repeat split; auto; try discriminate;
+    repeat (constructor; try reflexivity; auto).
 Qed.
